@@ -345,7 +345,7 @@ PROPS["C01"] = {
                  "C01_decoder_reads_subframe", "C01_subframe_ops_are_these_bits", "C01_bytes_carry_the_bits", "C01_subframe_bytes_decode_to_input",
                  "C01_encoder_subframes_verify", "C01_subframe_end_to_end", "C01_decoder_reads_frame", "C01_block_code_reads",
                  "C01_rate_code_reads", "C01_word_sink_bytes_carry_the_bits", "C01_frame_end_to_end", "C01_stream_end_to_end",
-                 "C01_fixed_size_frame_end_to_end", "C01_stream_end_to_end_lpc", "C01_stream_end_to_end_no_lpc"],
+                 "C01_fixed_size_frame_end_to_end", "C01_stream_end_to_end_lpc", "C01_stream_end_to_end_no_lpc", "C01_par_stream_end_to_end"],
     "streams": "ENC+DLV", "rule": "ENC+DLV",
     "oracle": lambda pid, res, driver: enc_oracle(pid, res, driver) + enc_oracle(pid, res, driver, "DLV"),
     "assumptions": ["the theorems are about the hand-written encoder model; that the Rust encoder computes it is the byte-exact ENC / DLV correspondence, "
